@@ -57,8 +57,12 @@ def cases(seed, tier):
     n = 20 if tier == "quick" else 200
     out = []
     for i in range(n):
-        out.append({"kind": "gen", "seed": seed * 1_000_003 + 55001 + i, "force": FORCES[i % len(FORCES)], "n_params": 2, "budget": 2500,
-                    "hashseeds": [0, 1, 4711] if (i % 5 == 0) else []})
+        hs = [0, 1, 2, 3, 4711] if (i % 5 == 0) else []
+        f = list(FORCES[i % len(FORCES)] or [])
+        if hs:
+            # set-iteration order matters where several names of one kind are collected: two continuous choices
+            f = sorted(set([x for x in f if x != "nocc"] + ["cont2"]))
+        out.append({"kind": "gen", "seed": seed * 1_000_003 + 55001 + i, "force": f, "n_params": 2, "budget": 2500, "hashseeds": hs})
     return out
 
 
